@@ -15,7 +15,7 @@ pub unsafe fn i_try_send<RW: QueueRW<Pay>>(n: usize, k: usize, mpmc: bool, kind:
     if kind == SendKind::Single {
         rt::assume(a0.writers == 1);
     } else {
-        en |= (1 << A_CLAIM) | (1 << A_PUBLISH) | (1 << A_SENDER) | (1 << A_CACHE);
+        en |= (1 << A_PUBLISH) | (1 << A_CACHE);
     }
     env_reset(&w, mpmc, budget, en);
     G_ME_SENDER = true;
@@ -32,9 +32,15 @@ pub unsafe fn i_try_send<RW: QueueRW<Pay>>(n: usize, k: usize, mpmc: bool, kind:
     match r {
         Ok(()) => {
             assert!(G_MY_CLAIMS == 1 && G_MY_TAG_STORES == 1, "C01: an accepted send claims and publishes exactly one count");
-            let s = G_MY_CLAIM_COUNT & (n - 1);
-            let cell = &*w.q.data.add(s);
-            assert!(cell.wraps.peek() == G_MY_CLAIM_COUNT && cell.val.ser == pser && cell.val.val == v, "C01/C02: at return the claimed slot carries the sent value under its count");
+            let slot = G_MY_CLAIM_COUNT & (n - 1);
+            let mut s = 0;
+            while s < n {
+                if s == slot {
+                    let cell = &*w.q.data.add(s);
+                    assert!(cell.wraps.peek() == G_MY_CLAIM_COUNT && cell.val.ser == pser && cell.val.val == v, "C01/C02: at return the claimed slot carries the sent value under its count");
+                }
+                s += 1;
+            }
             assert!(pay::STATE[pser] == 1, "C05: accepted value stays live in the queue");
         }
         Err(TrySendError::Full(back)) => {
@@ -49,9 +55,7 @@ pub unsafe fn i_try_send<RW: QueueRW<Pay>>(n: usize, k: usize, mpmc: bool, kind:
         assert!(G_MY_PIN[s] == 0, "a sender never pins");
         s += 1;
     }
-    kani_cover!(ENV_TAKEN[A_CLAIM as usize] > 0, "env claim taken");
-    kani_cover!(ENV_TAKEN[A_CONSUME as usize] > 0, "env consume taken");
-    kani_cover!(G_MY_CLAIMS == 1 && ENV_TAKEN[A_CLAIM as usize] > 0, "claim after a lost race reachable");
+    kani_cover!(G_MY_CLAIMS == 1 && ENV_TAKEN[0] > 0, "claim after a lost race reachable");
     mem::forget(w);
 }
 
@@ -72,10 +76,9 @@ pub unsafe fn i_try_recv<RW: QueueRW<Pay>>(n: usize, k: usize, mpmc: bool, budge
         Some(r) => r,
         None => unreachable!(),
     };
-    let en: u32 = (1 << A_CONSUME) | (1 << A_PIN) | (1 << A_CLAIM) | (1 << A_PUBLISH) | (1 << A_SENDER) | (1 << A_CONSUMER);
+    let en: u32 = (1 << A_CONSUME) | (1 << A_PUBLISH) | (1 << A_SENDER);
     env_reset(&w, mpmc, budget, en);
-    G_MY_STREAM = i;
-    G_MY_READER = reader as *const Reader as usize;
+    env_set_me_reader(i, reader);
     rt::ENV_MODE = ENV_PROTOCOL;
     let r = w.q.try_recv(reader);
     rt::ENV_MODE = ENV_OFF;
@@ -102,8 +105,7 @@ pub unsafe fn i_try_recv<RW: QueueRW<Pay>>(n: usize, k: usize, mpmc: bool, budge
         assert!(G_MY_PIN[s] == 0, "C06: a pin is left behind (the slot can never be written again)");
         s += 1;
     }
-    kani_cover!(ENV_TAKEN[A_CONSUME as usize] > 0 && r_is_ok_flag(), "sibling consumed and a value was still delivered");
-    kani_cover!(ENV_TAKEN[A_PUBLISH as usize] > 0, "env publish taken");
+    kani_cover!(ENV_TAKEN[1] > 0 && r_is_ok_flag(), "sibling consumed and a value was still delivered");
     mem::forget(w);
 }
 
@@ -122,10 +124,9 @@ pub unsafe fn i_try_recv_view<RW: QueueRW<Pay>>(n: usize, k: usize, mpmc: bool, 
         Some(r) => r,
         None => unreachable!(),
     };
-    let en: u32 = (1 << A_CONSUME) | (1 << A_PIN) | (1 << A_CLAIM) | (1 << A_PUBLISH) | (1 << A_SENDER);
+    let en: u32 = (1 << A_CONSUME) | (1 << A_PUBLISH) | (1 << A_SENDER);
     env_reset(&w, mpmc, budget, en);
-    G_MY_STREAM = i;
-    G_MY_READER = reader as *const Reader as usize;
+    env_set_me_reader(i, reader);
     VIEW_CALLS = 0;
     rt::ENV_MODE = ENV_PROTOCOL;
     let r = w.q.try_recv_view(view_fn, reader);
@@ -143,5 +144,141 @@ pub unsafe fn i_try_recv_view<RW: QueueRW<Pay>>(n: usize, k: usize, mpmc: bool, 
             assert!(reader.vf_pos() == w.q.head.vf_peek() && !any_pending(n), "C07: the end is reported while an accepted value is still undelivered to this stream");
         }
     }
+    mem::forget(w);
+}
+
+// ---------------------------------------------------------------------------------------------
+// I5: the arguments of Wait::wait under interference (C08)
+
+pub static mut HW_ARGS_OK: bool = true;
+pub static mut HW_ARGS_CHECKED: usize = 0;
+
+/// called by HWait::wait: is `at` the tag cell of the slot where count `seq` will be published, and
+/// `wc` this queue's writer counter?  (Evaluated at the call instant: later the state has moved on.)
+pub unsafe fn hw_check_args(seq: usize, at: usize, wc: usize) {
+    if ENV_Q == 0 {
+        return;
+    }
+    // MultiQueue<RW, T> is #[repr(C)] and RW only appears in PhantomData: both flavours share the layout
+    let q = &*(ENV_Q as *const MultiQueue<BCast<Pay>, Pay>);
+    let n = q.capacity as usize;
+    let cell = &(*q.data.add(seq & (n - 1))).wraps as *const AtomicUsize as usize;
+    HW_ARGS_CHECKED += 1;
+    if HW_STOP_AFTER_WAIT {
+        assert!(at == cell && wc == &q.writers as *const AtomicUsize as usize, "C08: the wait strategy is entered with a cell that is not the slot of the awaited count (stale slot paired with a fresh count)");
+        // the obligation is about the call itself: nothing after it is explored
+        rt::assume(false);
+    }
+    if at != cell || wc != &q.writers as *const AtomicUsize as usize {
+        HW_ARGS_OK = false;
+    }
+}
+
+pub static mut HW_STOP_AFTER_WAIT: bool = false;
+
+/// InnerRecv::recv / recv_view on stream i under the protocol environment (siblings consuming on the
+/// same stream, senders publishing and leaving).  Obligation (C08): whenever the wait strategy is
+/// entered, it is entered with a triple (seq, cell, writer count) such that `cell` is the tag cell of
+/// the slot where `seq` will be published -- otherwise the sleeper's wake-up test watches the wrong
+/// slot and a value that only it can take may sit in the queue while it sleeps.
+pub unsafe fn i_recv_wait_args<RW: QueueRW<Pay>>(n: usize, k: usize, mpmc: bool, budget: usize, shared: bool, view: bool) {
+    let w = World::<RW>::arbitrary(n, k, mpmc, false);
+    let a0 = w.a;
+    let i: usize = rt::oracle_usize();
+    rt::assume(i < a0.k);
+    rt::assume(if shared { a0.ncons[i] >= 2 } else { a0.ncons[i] == 1 });
+    let rx = mk_recv(&w, i);
+    let en: u32 = (1 << A_CONSUME) | (1 << A_PUBLISH) | (1 << A_SENDER);
+    env_reset(&w, mpmc, budget, en);
+    env_set_me_reader(i, &rx.reader);
+    HW_ARGS_OK = true;
+    HW_ARGS_CHECKED = 0;
+    HW_WAIT_CALLS = 0;
+    HW_STOP_AFTER_WAIT = true;
+    rt::ENV_MODE = ENV_PROTOCOL;
+    if view {
+        match rx.recv_view(view_fn) {
+            Ok(_) => {}
+            Err(_) => {}
+        }
+    } else {
+        match rx.recv() {
+            Ok(p) => mem::forget(p),
+            Err(_) => {}
+        }
+    }
+    rt::ENV_MODE = ENV_OFF;
+    HW_STOP_AFTER_WAIT = false;
+    mem::forget(rx);
+    mem::forget(w);
+}
+
+// ---------------------------------------------------------------------------------------------
+// T: try operations finish within a fixed number of their own steps, whatever state the others left
+
+/// From a state in which other threads are frozen anywhere inside their operations (pending claims:
+/// any tags; pins: any pin counts; any stale cache; positions anywhere in the window) one try
+/// operation run ALONE (nobody else moves) returns after a bounded number of its own shared-memory
+/// operations, without taking a lock, waiting on a condition variable, yielding or sleeping.
+pub unsafe fn t_try_op<RW: QueueRW<Pay>>(n: usize, k: usize, mpmc: bool, op: u8, bound: usize) {
+    let w = World::<RW>::arbitrary(n, k, mpmc, false);
+    let a0 = w.a;
+    // freeze the others mid-operation: arbitrary pins, arbitrary (older or equal) tags, stale cache
+    let mut s = 0;
+    while s < n {
+        let pins: usize = rt::oracle_usize();
+        rt::assume(pins <= 2);
+        (*w.q.refs.add(s)).refcnt.poke(pins);
+        let unpublished = rt::oracle_bool();
+        if unpublished && a0.tag[s] != INITIAL_QUEUE_FLAG && a0.tag[s] >= n {
+            // a claimed but not yet published slot still shows the previous lap
+            (*w.q.data.add(s)).wraps.poke(a0.tag[s] - n);
+        }
+        s += 1;
+    }
+    let i: usize = rt::oracle_usize();
+    rt::assume(a0.k == 0 || i < a0.k);
+    rt::assume(a0.writers >= 1);
+    let uni = rt::oracle_bool();
+    rt::assume(!uni || a0.writers == 1);
+    let tx = mk_send(&w, uni);
+    rt::LOCKS_TAKEN = 0;
+    rt::CONDVAR_WAITS = 0;
+    rt::YIELDS = 0;
+    rt::SLEEPS = 0;
+    HW_WAIT_CALLS = 0;
+    rt::ACCESSES = 0;
+    match op {
+        0 => match tx.try_send(Pay::new(1)) {
+            Ok(()) => {}
+            Err(TrySendError::Full(b)) => mem::forget(b),
+            Err(TrySendError::Disconnected(b)) => mem::forget(b),
+        },
+        1 => {
+            rt::assume(a0.k > 0);
+            let rx = mk_recv(&w, i);
+            rt::LOCKS_TAKEN = 0;
+            rt::ACCESSES = 0;
+            match rx.try_recv() {
+                Ok(p) => mem::forget(p),
+                Err(_) => {}
+            }
+            mem::forget(rx);
+        }
+        _ => {
+            rt::assume(a0.k > 0 && a0.ncons[i] == 1);
+            let rx = mk_recv(&w, i);
+            rt::LOCKS_TAKEN = 0;
+            rt::ACCESSES = 0;
+            match rx.try_recv_view(view_fn) {
+                Ok(_) => {}
+                Err(_) => {}
+            }
+            mem::forget(rx);
+        }
+    }
+    assert!(rt::ACCESSES <= bound, "C18: a try operation performed more shared-memory steps than its fixed bound");
+    assert!(rt::LOCKS_TAKEN == 0 && rt::CONDVAR_WAITS == 0 && rt::YIELDS == 0 && rt::SLEEPS == 0 && HW_WAIT_CALLS == 0, "C18: a try operation reached a blocking primitive (lock, condition variable, yield, sleep or the wait strategy)");
+    mem::forget(tx);
     mem::forget(w);
 }
